@@ -342,6 +342,16 @@ func (w *World) fail(key, format string, a ...any) {
 	w.findings = append(w.findings, finding{key, fmt.Sprintf(format, a...)})
 }
 
+// spawnApp registers an application thread (counted towards "all scripts
+// finished") and starts it.
+func (w *World) spawnApp(name string, f func()) {
+	w.appStart()
+	w.s.Spawn(name, func() {
+		defer w.appEnd()
+		f()
+	})
+}
+
 func (w *World) appStart() { w.appMu.Lock(); w.appThreads++; w.appMu.Unlock() }
 func (w *World) appEnd()   { w.appMu.Lock(); w.appDone++; w.appMu.Unlock() }
 func (w *World) appsFinished() bool {
@@ -359,6 +369,10 @@ func newWorld(s *vrt.Sched, sc *Scenario) *World {
 	w.C.ctx, w.C.cancel = context.WithCancel(context.Background())
 	w.S.ctx, w.S.cancel = context.WithCancel(context.Background())
 
+	if sc.Custom != nil {
+		sc.Custom(w)
+		return w
+	}
 	for _, b := range sc.StaleC2S {
 		w.c2s.inject(b)
 	}
@@ -368,16 +382,10 @@ func newWorld(s *vrt.Sched, sc *Scenario) *World {
 
 	startClient := func() {
 		if sc.RawClient != nil {
-			s.Spawn("raw-client", func() {
-				w.appStart()
-				defer w.appEnd()
-				sc.RawClient(w)
-			})
+			w.spawnApp("raw-client", func() { sc.RawClient(w) })
 			return
 		}
-		s.Spawn("client-main", func() {
-			w.appStart()
-			defer w.appEnd()
+		w.spawnApp("client-main", func() {
 			conn, err := gbn.NewClientConn(w.C.ctx, sc.N, w.c2s.send, w.s2c.recv, sc.clientOpts()...)
 			w.C.Conn, w.C.CtorErr, w.C.CtorDone, w.C.CtorAt = conn, err, true, s.Now()
 			if err != nil {
@@ -387,9 +395,7 @@ func newWorld(s *vrt.Sched, sc *Scenario) *World {
 		})
 	}
 	startServer := func() {
-		s.Spawn("server-main", func() {
-			w.appStart()
-			defer w.appEnd()
+		w.spawnApp("server-main", func() {
 			conn, err := gbn.NewServerConn(w.S.ctx, w.s2c.send, w.c2s.recv, sc.serverOpts()...)
 			w.S.Conn, w.S.CtorErr, w.S.CtorDone, w.S.CtorAt = conn, err, true, s.Now()
 			if err != nil {
